@@ -54,6 +54,18 @@ func belongs(prop string, u *UnitResult, o *Obligation, clauseProps []string) bo
 	if len(clauseProps) > 0 {
 		return has(clauseProps, prop)
 	}
+	if u.fc != nil && u.fc.Unclaimed != nil {
+		if _, un := u.fc.Unclaimed[o.Kind]; un {
+			return false
+		}
+	}
+	if strings.HasPrefix(o.Kind, "mustuse") {
+		// an ignored short-read signal matters to the truncation property only
+		return prop == "C14"
+	}
+	if prop == "C14" && u.fc != nil && u.fc.FrameOnly {
+		return false
+	}
 	isFrame := strings.HasPrefix(o.Kind, "frame.")
 	if has(u.Props, "C01") && len(u.Props) > 1 {
 		if isFrame {
@@ -106,7 +118,30 @@ func report(o *options, p *Program, units []*UnitResult, loadSecs, genSecs, solv
 			trusted = append(trusted, u.Name)
 			continue
 		}
-		if u.Err != "" {
+		if u.Err != "" && u.Stale && o.prop != "" {
+			// the contract no longer matches the body (a clause names something the code does not have): the
+			// verifier cannot accept the function, which is reported as a failed obligation, never as a pass
+			name := u.Name + "#contract-matches-body"
+			path := filepath.Join(replayDir, sanitize(name)+".json")
+			rep := map[string]any{
+				"property": o.prop, "obligation": name, "kind": "contract-stale", "unit": u.Name,
+				"result":        "not-accepted",
+				"solver_output": u.Err,
+				"note": "the obligations of this function were discharged on the pinned tree; its body changed so that the contract's loop invariants / clauses " +
+					"can no longer be attached, and no obligation of the unit is discharged now",
+				"failing_input_found": false,
+			}
+			data, _ := json.MarshalIndent(rep, "", " ")
+			os.WriteFile(path, data, 0o644)
+			lines = append(lines, fmt.Sprintf("VIOLATION property=%s replay=%s obligation=%s result=contract-stale (%s) no-failing-input-found", o.prop, path, name, u.Err))
+			violations++
+			obligations++
+			exit = 1
+			all = append(all, oblOut{name, "contract-stale", "not-accepted", "", 0, 0, ""})
+			if u.VC == nil {
+				continue
+			}
+		} else if u.Err != "" {
 			undecided = append(undecided, fmt.Sprintf("%s: %s", u.Name, u.Err))
 			if u.VC == nil {
 				continue
@@ -125,11 +160,25 @@ func report(o *options, p *Program, units []*UnitResult, loadSecs, genSecs, solv
 		for k := range u.VC.assumedStd {
 			assumed[k] = true
 		}
+		if u.fc != nil {
+			for k, why := range u.fc.Unclaimed {
+				assumed[fmt.Sprintf("not claimed: %s obligations of %s (%s)", k, u.Name, why)] = true
+			}
+			for _, rq := range u.fc.Requires {
+				if u.fc.FrameOnly || !hasString(u.Props, o.prop) {
+					continue
+				}
+				assumed[fmt.Sprintf("precondition of %s assumed at entry: %s", u.Name, rq.Src)] = true
+			}
+		}
 		for k := range u.VC.pureUsed {
 			pureUsed[k] = true
 		}
 		for _, ob := range u.VC.obls {
 			if ob.Vacuity {
+				if ob.Result == "skipped" {
+					continue
+				}
 				vacuityChecks++
 				if o.verbose && ob.Seconds > 3 {
 					fmt.Printf("  slow vacuity probe %.1fs %s %s\n", ob.Seconds, ob.Result, ob.Name)
@@ -367,3 +416,12 @@ func writeEvidence(o *options, p *Program, all []oblOut, obligations, discharged
 }
 
 func round2(f float64) float64 { return float64(int(f*100+0.5)) / 100 }
+
+func hasString(xs []string, x string) bool {
+	for _, y := range xs {
+		if y == x {
+			return true
+		}
+	}
+	return false
+}
